@@ -44,6 +44,7 @@ type JobResult struct {
 	Counters    map[string]int64  `json:"counters,omitempty"`
 	Notes       []string          `json:"notes,omitempty"`
 	HarnessErr  string            `json:"harness_error,omitempty"`
+	Recycle     bool              `json:"recycle,omitempty"` // the worker process should be replaced (heap grown by leaks of the code under test)
 	WallS       float64           `json:"wall_s"`
 }
 
@@ -298,6 +299,10 @@ func Main(spec *Spec) {
 				mu.Lock()
 				results[ji] = res
 				mu.Unlock()
+				if wp != nil && res != nil && res.Recycle {
+					wp.close() // a fresh process for the next job
+					wp = nil
+				}
 			}
 			if wp != nil {
 				wp.close()
@@ -589,6 +594,12 @@ func runWorker(jobs []Job) {
 		}
 		res.Name = jobs[ji].Name()
 		res.WallS = time.Since(t0).Seconds()
+		var ms runtime.MemStats
+		runtime.GC()
+		runtime.ReadMemStats(&ms)
+		if ms.HeapAlloc>>20 > 512 {
+			res.Recycle = true
+		}
 		b, _ := json.Marshal(res)
 		out.Write(b)
 		out.WriteByte('\n')
